@@ -14,15 +14,16 @@ import (
 // Ctx is one analysis context: the finite configuration under which an entry point is
 // evaluated (sizes come from the gate analysis, language classes from the constant table).
 type Ctx struct {
-	Name      string
-	Modular   map[*ssa.Function]bool // module functions whose calls are not entered (proved separately for all arguments)
-	EntLen    *int64                 // length of every []byte parameter of the entry point
-	WordCount *int64                 // value of the int parameter of the entry point
-	TokCount  *int64                 // number of tokens produced by the tokeniser
-	SizeKind  string                 // "L", "W" or "N": which size SizeRange bounds
-	SizeRange *[2]int64              // when the size is not a single value: an interval containing it (a class of rejected sizes)
-	Lang      *IntV                  // value of every Language-typed parameter of the entry point
-	IntTable  []int64                // value of every []int parameter of the entry point (a predicate helper's table of constants)
+	Name       string
+	Modular    map[*ssa.Function]bool   // module functions whose calls are not entered (proved separately for all arguments)
+	EntLen     *int64                   // length of every []byte parameter of the entry point
+	WordCount  *int64                   // value of the int parameter of the entry point
+	TokCount   *int64                   // number of tokens produced by the tokeniser
+	SizeKind   string                   // "L", "W" or "N": which size SizeRange bounds
+	SizeRange  *[2]int64                // when the size is not a single value: an interval containing it (a class of rejected sizes)
+	Lang       *IntV                    // value of every Language-typed parameter of the entry point
+	ParamConst map[*ssa.Parameter]int64 // integer parameters of the entry point fixed to a constant (a predicate helper's bounds at one call site)
+	IntTable   []int64                  // value of every []int parameter of the entry point (a predicate helper's table of constants)
 	// Infeasible blocks (from the gate analysis) for contexts that stand for a set of values
 	Infeasible map[*ssa.BasicBlock]bool
 }
@@ -121,6 +122,7 @@ type frame struct {
 	isContained   map[*ssa.BasicBlock]bool
 	unroll        int                                    // > 0 while a loop is being evaluated iteration by iteration
 	phiIn         map[[2]*ssa.BasicBlock]map[*ssa.Phi]AV // φ inputs recorded on edges that leave an unrolled loop
+	worlds        map[any]*worldSet                      // per unrolled loop (by header): the header φ values at each distinct way out; per call of a module helper: its results at each return
 }
 
 type deferRec struct {
@@ -136,42 +138,48 @@ type retRec struct {
 
 // Eval is one abstract evaluation of an entry point in a context.
 type Eval struct {
-	P            *Program
-	G            *Globals
-	Ctx          *Ctx
-	objs         int
-	Events       []Event
-	Calls        []CallRec
-	Exits        []Exit
-	Relied       map[*ssa.Global]bool // globals whose initial content was used (must be initialiser-only)
-	Touched      map[*ssa.Global]bool // globals used in a way the evaluator does not model (address used, unknown content loaded)
-	Notes        []string
-	Instrs       int
-	Loops        []LoopInfo
-	stack        []*ssa.Function
-	initMode     bool
-	builderMode  bool // evaluating a once-run builder: stores to globals are tracked locally
-	GStore       map[*ssa.Global]AV
-	activeLoops  []*loopCtx
-	GlobalInit   map[*ssa.Global]AV
-	GlobalObj    State
-	Digests      map[string]DigestInfo
-	refs         map[string]Layout // loop-invariant values referenced at offsets affine in t
-	mapGlobals   []*Obj
-	Reads        []ReadInfo
-	limited      map[*Obj]limitedRead                    // buffers read through io.LimitReader (refineLimited)
-	errObj       map[ssa.Instruction]*Obj                // per read call: what is known about its error on the current path
-	lastRets     []retRec                                // the individual returns of the function evaluated last
-	lkObj        map[ssa.Instruction]*Obj                // per word lookup: did it hit on the current path?
-	arrBuf       map[*Obj]*Obj                           // local byte array (cell) -> the buffer object its slices share
-	poolObj      map[*Obj]types.Type                     // objects obtained from a typed sync.Pool: the pointer type they have
-	poolBuf      map[*Obj]bool                           // buffer objects backing arrays obtained from a typed sync.Pool
-	loopHeaders  []*ssa.BasicBlock                       // headers of the loops being evaluated (summarised or one by one), innermost last
-	lkLoopHdr    map[ssa.Instruction]*ssa.BasicBlock     // word lookups made in a function called from inside a loop: that loop's header
-	rawStrParams int                                     // number of string parameters of the entry point
-	sites        []ssa.Instruction                       // call sites of the module functions being evaluated (innermost last)
-	alts         map[ssa.Instruction]map[*Obj]altContent // per guarded call: object contents on its success / failure return
-	LoopHits     map[ssa.Instruction]bool                // per word lookup inside a loop: every path to the back edge passed its hit edge
+	P                *Program
+	G                *Globals
+	Ctx              *Ctx
+	objs             int
+	Events           []Event
+	Calls            []CallRec
+	Exits            []Exit
+	Relied           map[*ssa.Global]bool // globals whose initial content was used (must be initialiser-only)
+	Touched          map[*ssa.Global]bool // globals used in a way the evaluator does not model (address used, unknown content loaded)
+	Notes            []string
+	Instrs           int
+	Loops            []LoopInfo
+	stack            []*ssa.Function
+	initMode         bool
+	builderMode      bool // evaluating a once-run builder: stores to globals are tracked locally
+	GStore           map[*ssa.Global]AV
+	activeLoops      []*loopCtx
+	GlobalInit       map[*ssa.Global]AV
+	GlobalObj        State
+	Digests          map[string]DigestInfo
+	refs             map[string]Layout // loop-invariant values referenced at offsets affine in t
+	mapGlobals       []*Obj
+	Reads            []ReadInfo
+	limited          map[*Obj]limitedRead      // buffers read through io.LimitReader (refineLimited)
+	errObj           map[ssa.Instruction]*Obj  // per read call: what is known about its error on the current path
+	lastRets         []retRec                  // the individual returns of the function evaluated last
+	lkObj            map[ssa.Instruction]*Obj  // per word lookup: did it hit on the current path?
+	arrBuf           map[*Obj]*Obj             // local byte array (cell) -> the buffer object its slices share
+	poolObj          map[*Obj]types.Type       // objects obtained from a typed sync.Pool: the pointer type they have
+	poolBuf          map[*Obj]bool             // buffer objects backing arrays obtained from a typed sync.Pool
+	loopHeaders      []*ssa.BasicBlock         // headers of the loops being evaluated (summarised or one by one), innermost last
+	LoopHitsUnrolled map[ssa.Instruction]bool  // LoopHits entries that come from an iteration-by-iteration evaluation
+	lkKey            map[ssa.Instruction][2]AV // per word lookup: the map and the key it was last made with
+	lkSeenAct        map[ssa.Instruction]int   // per word lookup: the unrolled-loop activation it was last made in
+	lkMissCont       map[ssa.Instruction]bool  // per word lookup: made again, in the same activation, where the one before had not certainly hit
+	unrollActs       []int                     // activations of loops being evaluated iteration by iteration (outermost first)
+	nActs            int
+	lkLoopHdr        map[ssa.Instruction]*ssa.BasicBlock     // word lookups made in a function called from inside a loop: that loop's header
+	rawStrParams     int                                     // number of string parameters of the entry point
+	sites            []ssa.Instruction                       // call sites of the module functions being evaluated (innermost last)
+	alts             map[ssa.Instruction]map[*Obj]altContent // per guarded call: object contents on its success / failure return
+	LoopHits         map[ssa.Instruction]bool                // per word lookup inside a loop: every path to the back edge passed its hit edge
 }
 
 type LoopInfo struct {
@@ -225,6 +233,9 @@ func (e *Eval) Run(fn *ssa.Function) (res []AV, st State) {
 
 func (e *Eval) bindParam(p *ssa.Parameter) AV {
 	t := p.Type()
+	if c, ok := e.Ctx.ParamConst[p]; ok {
+		return CInt(c)
+	}
 	if gl := e.P.paramGlobal[p]; gl != nil && e.G != nil {
 		// the entry point's wrapper passes the value of this package-level variable
 		return e.G.load(e, gl, t)
@@ -876,6 +887,16 @@ func joinAV(a, b AV) AV {
 	}
 	if ea, ok := a.(ErrV); ok {
 		if eb, ok := b.(ErrV); ok {
+			if ea.Kind == ekFresh && eb.Kind == ekFresh && ea.Site != nil && ea.Site == eb.Site && ea.Format == eb.Format && len(ea.Args) == len(eb.Args) {
+				// the same fmt.Errorf reached with different operands (one per iteration of an
+				// unrolled loop): still that error, operands joined
+				j := ea
+				j.Args = make([]AV, len(ea.Args))
+				for i := range ea.Args {
+					j.Args[i] = joinAV(ea.Args[i], eb.Args[i])
+				}
+				return j
+			}
 			return ErrV{Kind: ekUnknown, NonNil: ea.Kind != ekNil && eb.Kind != ekNil && (ea.Kind != ekFrom || ea.NonNil) && (eb.Kind != ekFrom || eb.NonNil) && ea.Kind != ekUnknown && eb.Kind != ekUnknown}
 		}
 	}
@@ -886,7 +907,13 @@ func joinAV(a, b AV) AV {
 		}
 		return s
 	}
-	if _, ok := a.(StrV); ok {
+	if sa, ok := a.(StrV); ok {
+		if sb, ok := b.(StrV); ok && sa.Kind == skTok && sb.Kind == skTok && sa.Toks != nil && sa.Toks == sb.Toks {
+			// two tokens of the same split: a token of it, at one of the two positions
+			j := sa
+			j.Idx, _ = joinAV(sa.Idx, sb.Idx).(IntV)
+			return j
+		}
 		return TopStr("join of " + short(a) + " | " + short(b))
 	}
 	if _, ok := a.(BoolV); ok {
@@ -1260,6 +1287,9 @@ func refineOnEdge(fr *frame, st State, cond ssa.Value, bv BoolV, taken bool) Sta
 	if len(fr.ev.limited) > 0 {
 		st = fr.ev.refineLimited(fr, st, cond, taken)
 	}
+	if len(fr.worlds) > 0 {
+		st = fr.ev.refineWorlds(fr, st, cond, taken)
+	}
 	if !bv.Known && bv.C != nil && bv.C.Kind == "lookupok" && bv.C.Site != nil {
 		if o := fr.ev.lkObj[bv.C.Site]; o != nil {
 			n := st.clone()
@@ -1288,6 +1318,49 @@ func refineOnEdge(fr *frame, st State, cond ssa.Value, bv BoolV, taken bool) Sta
 	}
 	e.applyOutcome(n, ev.Site, isNil)
 	return n
+}
+
+// refineWorlds: a branch, after an unrolled loop, on one of the loop's header φ-nodes: on the
+// edge taken, the objects that nothing has touched since the loop hold what they held on the
+// ways out of the loop that agree with the branch (see worldSet).
+func (e *Eval) refineWorlds(fr *frame, st State, cond ssa.Value, taken bool) State {
+	for _, ws := range fr.worlds {
+		if _, known := worldAgrees(ws.alts[0], cond, taken); !known {
+			continue
+		}
+		if fr.cur != nil && ws.body[fr.cur] {
+			continue
+		}
+		var sel []int
+		for i, w := range ws.alts {
+			if ok, _ := worldAgrees(w, cond, taken); ok {
+				sel = append(sel, i)
+			}
+		}
+		if len(sel) == 0 || len(sel) == len(ws.alts) {
+			continue
+		}
+		var j State
+		for _, i := range sel {
+			if j == nil {
+				j = ws.states[i].clone()
+			} else {
+				j = e.joinStatesE(j, ws.states[i])
+			}
+		}
+		n := st.clone()
+		for o, c := range j {
+			cur, ok := st[o]
+			if !ok || cur == nil || c == nil {
+				continue
+			}
+			if want, ok := ws.joined[o]; ok && cur.String() == want {
+				n[o] = c
+			}
+		}
+		st = n
+	}
+	return st
 }
 
 // limitedRead: a buffer filled by ReadAll(io.LimitReader(body, N)).
@@ -1548,6 +1621,126 @@ func (e *Eval) refinements(fr *frame, b *ssa.BasicBlock) map[ssa.Value]AV {
 		return nil
 	}
 	var over map[ssa.Value]AV
+	// after an unrolled loop: a dominating branch on one of its header φ-nodes (`if failed`)
+	// keeps the ways out of the loop on which that value agrees with the branch taken; what the
+	// other φ-nodes held on those ways out is what they hold here
+	for _, ws := range fr.worlds {
+		if ws.body[b] {
+			continue
+		}
+		sel := make([]int, len(ws.alts))
+		for i := range sel {
+			sel[i] = i
+		}
+		type decided struct {
+			cond ssa.Value
+			hold bool
+		}
+		var by []decided
+		for _, c := range e.ctrlEdges(b) {
+			if ws.body[c.If.Block()] {
+				continue
+			}
+			if _, known := worldAgrees(ws.alts[0], c.If.Cond, c.Taken); !known {
+				continue
+			}
+			if ws.site != nil && !instrDominates(ws.site, c.If) {
+				continue // the test comes before the call whose returns these are (an earlier iteration's value)
+			}
+			var keep []int
+			for _, i := range sel {
+				if ok, _ := worldAgrees(ws.alts[i], c.If.Cond, c.Taken); ok {
+					keep = append(keep, i)
+				}
+			}
+			if len(keep) < len(sel) {
+				cv, hold := c.If.Cond, c.Taken
+				for {
+					u, ok := cv.(*ssa.UnOp)
+					if !ok || u.Op != token.NOT {
+						break
+					}
+					hold, cv = !hold, u.X
+				}
+				by = append(by, decided{cv, hold})
+			}
+			sel = keep
+		}
+		if len(sel) == 0 || len(sel) == len(ws.alts) {
+			continue
+		}
+		if over == nil {
+			over = map[ssa.Value]AV{}
+		}
+		for v := range ws.alts[0] {
+			var j AV
+			for _, i := range sel {
+				j = joinAV(j, ws.alts[i][v])
+			}
+			if j != nil {
+				over[v] = j
+			}
+		}
+		// a flag that says "some word was not found": where the ways out it selects are exactly
+		// those on which a word lookup had missed, the flag stands for that lookup's outcome —
+		// which is what the rules on exits ask about
+		if len(by) == 1 && ws.lks != nil {
+			if _, isBool := over[by[0].cond].(BoolV); isBool {
+				inSel := map[int]bool{}
+				for _, i := range sel {
+					inSel[i] = true
+				}
+				for site, o := range e.lkObj {
+					missSel, hitRest := true, true
+					for i := range ws.alts {
+						known, val := false, false
+						if c, ok := ws.states[i][o].(CellC); ok {
+							if bv, ok := c.V.(BoolV); ok && bv.Known {
+								known, val = true, bv.Val
+							}
+						}
+						if inSel[i] && !(known && !val) {
+							missSel = false
+						}
+						if !inSel[i] && !(known && val) {
+							hitRest = false
+						}
+					}
+					hitSel, missRest := true, true
+					for i := range ws.alts {
+						known, val := false, false
+						if c, ok := ws.states[i][o].(CellC); ok {
+							if bv, ok := c.V.(BoolV); ok && bv.Known {
+								known, val = true, bv.Val
+							}
+						}
+						if inSel[i] && !(known && val) {
+							hitSel = false
+						}
+						if !inSel[i] && !(known && !val) {
+							missRest = false
+						}
+					}
+					if !(missSel && hitRest) && !(hitSel && missRest) {
+						continue
+					}
+					// the key and the map of the lookups on the ways out where it missed
+					var mAV, kAV AV
+					for i := range ws.alts {
+						if (missSel && hitRest) == inSel[i] {
+							if mk, ok := ws.lks[i][site]; ok {
+								mAV, kAV = joinAV(mAV, mk[0]), joinAV(kAV, mk[1])
+							}
+						}
+					}
+					// value(cond) == hold  ⇔  this block is reached  ⇔  (missSel: the lookup missed)
+					neg := by[0].hold == (missSel && hitRest)
+					over[by[0].cond] = BoolV{C: &Cond{Kind: "lookupok", A: mAV, B: kAV, Site: site}, Neg: neg}
+					break
+				}
+			}
+		}
+	}
 	cur := func(v ssa.Value) AV {
 		if a, ok := over[v]; ok {
 			return a
@@ -2770,6 +2963,12 @@ func (e *Eval) alloc(fr *frame, x *ssa.Alloc, st State) AV {
 			return PtrV{O: o}
 		}
 	}
+	if isNamed(et, "bytes", "Buffer") && x.Parent() != nil && x.Parent().Pkg != e.P.Gen && (x.Parent().Parent() == nil || x.Parent().Parent().Pkg != e.P.Gen) {
+		// in the library a bytes.Buffer is used as a string builder
+		o := e.newObj(okSB, x, "bytes.Buffer")
+		e.setContentFresh(st, o, SBC{})
+		return PtrV{O: o}
+	}
 	if isNamed(et, "bytes", "Buffer") {
 		// a local bytes.Buffer: tracked for the generator (render into memory, then write the file)
 		o := e.newObj(okCell, x, "bytes.Buffer")
@@ -2977,7 +3176,13 @@ func (e *Eval) binop(fr *frame, x *ssa.BinOp) AV {
 		}
 		return e.topOf(x.Type(), "binop "+x.Op.String())
 	}
-	return e.fit(e.arith(fr, x, ia, ib), x.Type(), fr.T())
+	r := e.arith(fr, x, ia, ib)
+	if fr.loop != nil && r.Kind == ikTop && ia.Kind != ikTop && ib.Kind != ikTop {
+		// the summary (operands as functions of the iteration number) has no form for this
+		// operation; an iteration-by-iteration evaluation computes with the numbers themselves
+		fr.loop.imprecise = true
+	}
+	return e.fit(r, x.Type(), fr.T())
 }
 
 // maskRun: c = ((1<<w)-1) << lo, a single run of w ones starting at bit lo.
@@ -3499,6 +3704,10 @@ func (e *Eval) compare(fr *frame, x *ssa.BinOp, a, b AV) AV {
 			if lv.G != nil {
 				e.Relied[lv.G] = true
 			}
+			return KBool(x.Op == token.NEQ)
+		}
+		if pv, ok := o.(PtrV); ok && (pv.G != nil || pv.O != nil || pv.Elem != nil) {
+			// the address of a variable, of an allocated object, or of an element: not nil
 			return KBool(x.Op == token.NEQ)
 		}
 		if mv, ok := o.(MapV); ok {
@@ -4123,6 +4332,33 @@ func (e *Eval) lookup(fr *frame, x *ssa.Lookup, st State) AV {
 				e.lkLoopHdr[x] = e.loopHeaders[n-1]
 			}
 		}
+		if len(e.unrollActs) > 0 {
+			// made again in the same run of a loop: what is known of the one before must be
+			// "found" — otherwise a miss did not end the validation
+			act := e.unrollActs[0]
+			if e.lkSeenAct == nil {
+				e.lkSeenAct = map[ssa.Instruction]int{}
+			}
+			if e.lkSeenAct[x] == act {
+				hit := false
+				if c, ok := st[e.lkObj[x]].(CellC); ok {
+					if b, ok := c.V.(BoolV); ok && b.Known && b.Val {
+						hit = true
+					}
+				}
+				if !hit {
+					if e.lkMissCont == nil {
+						e.lkMissCont = map[ssa.Instruction]bool{}
+					}
+					e.lkMissCont[x] = true
+				}
+			}
+			e.lkSeenAct[x] = act
+		}
+		if e.lkKey == nil {
+			e.lkKey = map[ssa.Instruction][2]AV{}
+		}
+		e.lkKey[x] = [2]AV{m, k}
 		e.setContentFresh(st, e.lkObj[x], CellC{BoolV{}})
 	}
 	switch mv := m.(type) {
